@@ -1,3 +1,7 @@
 pub mod common;
 pub mod refcodec;
 pub mod engine;
+pub mod codec;
+pub mod aws;
+pub mod drivers;
+pub mod lifecycle;
